@@ -317,7 +317,7 @@ func (ck *checker) compare(in *input, mode string, od bool, rr realRun, truth ma
 				[]byte(in.src+"\n/* trace: "+traceStr(d, t)+" */\n"), false)
 		} else if kv["replay"] != "1" {
 			rep.Fail(ck.key(in, "trace-not-model-path", sid),
-				fmt.Sprintf("[%s] correspondence M7 broken: a REAL trace is well-formed but is not a path of BackVisit.expand candidates (path of the pre-7ab5f0c model: %s): %s", mode, kv["replay0"], traceStr(d, t)),
+				fmt.Sprintf("[%s] correspondence M7 broken: a REAL trace is well-formed but is not a path of BackVisit.expand candidates (path of the current-code model: %s): %s", mode, kv["replay0"], traceStr(d, t)),
 				[]byte(in.src+"\n/* trace: "+traceStr(d, t)+" */\n"), true)
 		}
 	}
